@@ -56,9 +56,11 @@ def showMsg (m : Msg) : String :=
     cfgout <cfg> | cfgin <cfg> | zout <z|-> | zin <z|-> | seqout <n> | seqin <n> | kexout <0|1> | kexin <0|1>   → ok
     send <payloadhex> <rndhex>      → <wirehex> | err:<kind>            (sender)
     feed <hex> | rem <hex>          → ok                                (bytes that will arrive | `__remainder`)
-    read <sched>                    → ok <cmd> <payloadhex> <seqno> | err:<kind>     (`read_message`)
-    readall <n> <sched>             → <hex> | err:<kind>                (`read_all(n)`, n may be negative)
-  sched: `-` or comma separated naturals (0 = socket.timeout, k = recv returns at most k bytes)
+    read <sched>                    → ok <cmd> <payloadhex> <seqno> <retries> | err:<kind>
+                                      (`read_message`, called again after each NeedRekeyException as Transport.run does)
+    readall <n> <cr 0|1> <sched>    → <hex> | err:<kind> | rekey        (`read_all(n, check_rekey)`, n may be negative)
+  sched: `-` or comma separated tokens: 0 = socket.timeout with the need-rekey flag clear, r = socket.timeout with
+  the flag set, k>0 = recv returns at most k bytes
 -/
 
 structure DSt where
@@ -67,8 +69,23 @@ structure DSt where
   rem : Bytes := []
   data : Bytes := []
 
-def parseSched (t : String) : Option (List Nat) :=
-  if t == "-" then some [] else (t.splitOn ",").mapM String.toNat?
+def parseEv (t : String) : Option Ev :=
+  if t == "r" then some (.timeout true)
+  else match t.toNat? with
+    | some 0 => some (.timeout false)
+    | some (k + 1) => some (.recv k)
+    | none => none
+
+def parseSched (t : String) : Option (List Ev) :=
+  if t == "-" then some [] else (t.splitOn ",").mapM parseEv
+
+/-- `readRetry` that also counts the NeedRekeyExceptions (same recursion) -/
+def readRetryCount {p : Prims} (r : Receiver p) : (fuel : Nat) → Nat → Sock → SRes (RecvOut p) × Nat
+  | 0, k, s => (.rekey s, k)
+  | fuel + 1, k, s =>
+    match runSock (readMessage r) s with
+    | .rekey s' => readRetryCount r fuel (k + 1) s'
+    | x => (x, k)
 
 def driverStep (st : DSt) (line : String) : DSt × String :=
   match words line with
@@ -123,17 +140,19 @@ def driverStep (st : DSt) (line : String) : DSt × String :=
   | ["read", sc] =>
     match parseSched sc with
     | some sc =>
-      match runSock (readMessage st.r) ⟨st.rem, st.data, sc⟩ with
-      | .ok o sk => ({ st with r := o.st, rem := sk.rem, data := sk.data }, showMsg o.msg)
-      | .err e => (st, "err:" ++ errName e)
+      match readRetryCount st.r (sc.length + 1) 0 ⟨st.rem, st.data, sc⟩ with
+      | (.ok o sk, k) => ({ st with r := o.st, rem := sk.rem, data := sk.data }, showMsg o.msg ++ " " ++ toString k)
+      | (.err e, _) => (st, "err:" ++ errName e)
+      | (.rekey _, _) => (st, "err:rekey-loop")
     | none => (st, "bad-op")
-  | ["readall", n, sc] =>
-    match intOfString? n, parseSched sc with
-    | some n, some sc =>
-      match readAll ⟨st.rem, st.data, sc⟩ n with
-      | .ok (b, sk) => ({ st with rem := sk.rem, data := sk.data }, toHexTok b)
-      | .error e => (st, "err:" ++ errName e)
-    | _, _ => (st, "bad-op")
+  | ["readall", n, cr, sc] =>
+    match intOfString? n, bool? cr, parseSched sc with
+    | some n, some cr, some sc =>
+      match readAll ⟨st.rem, st.data, sc⟩ n cr with
+      | .ok b sk => ({ st with rem := sk.rem, data := sk.data }, toHexTok b)
+      | .err e => (st, "err:" ++ errName e)
+      | .rekey sk => ({ st with rem := sk.rem, data := sk.data }, "rekey")
+    | _, _, _ => (st, "bad-op")
   | _ => (st, "bad-op")
 
 end PV.Packet
